@@ -69,6 +69,11 @@ def run_hungarian_steps(case):
 
 def gen(rng, maxn=7):
     r, c = rng.randint(1, maxn), rng.randint(1, maxn)
+    if maxn >= 7 and rng.random() < 0.04:
+        # beyond permutation enumeration: the trace spec decides these with a dynamic programme over column subsets
+        r, c = rng.randint(6, 9), rng.randint(8, 9)
+        if rng.random() < 0.5:
+            r, c = c, r
     style = rng.random()
     if style < 0.15:
         vals = [-3, -2, -1, 0, 0, 0, 1, 2]  # zeros among negative entries: reduced costs of a fresh row can be negative
